@@ -32,7 +32,8 @@ VNum == {-2, 0, 1, 6}      \* -0.5, 0, 0.25, 1.5
 K == 67108864
 TyName(t_) == IF t_ = "numberfar" THEN "number" ELSE t_
 V(t_) == IF t_ = "integer" THEN VInt ELSE IF t_ = "numberfar" THEN {K + v : v \in VNum} ELSE VNum
-Mults(t_) == IF t_ = "integer" THEN {4, 8, 12} ELSE {1, 2, 4, 6}   \* 1,2,3 / 0.25,0.5,1,1.5 (1: the no-op for integers is a real constraint for numbers)
+\* (10 and 2 on integers: 2.5 and 0.5, fractional divisors -- before fix for F-C05-fractional-multiple-int the divisor was truncated)
+Mults(t_) == IF t_ = "integer" THEN {4, 8, 12, 10, 2} ELSE {1, 2, 4, 6}   \* 1,2,3 / 0.25,0.5,1,1.5 (1: the no-op for integers is a real constraint for numbers)
 
 Incl(t_) == {Off} \cup {On(JNum(v)) : v \in V(t_)}
 Excl(t_) == {Off, On([k |-> "b", b |-> TRUE]), On([k |-> "b", b |-> FALSE])}
